@@ -862,7 +862,24 @@ func (x *exec) step(s *State, in ssa.Instruction) bool {
 		}
 		x.nilCheck(s, p, i.Pos())
 		x.lockset(s, p, true, i.Pos())
-		if err := e.store(s, p, x.val(i.Val, s)); err != nil {
+		sv := x.val(i.Val, s)
+		if pv, ok := sv.(PtrV); ok && pv.Kind == PCell && pv.Cell != nil && p.Kind != PCell {
+			// the address of a local is stored into the heap (&metadataInfo{Type: &tpe}):
+			// the heap gets a fresh reference whose pointee is unknown, and the
+			// local holds arbitrary values after every later call (whoever reads
+			// the structure may write through the pointer)
+			dup := false
+			for _, c0 := range x.shared {
+				if c0 == pv.Cell {
+					dup = true
+				}
+			}
+			if !dup {
+				x.shared = append(x.shared, pv.Cell)
+			}
+			sv = e.ptrFromRef(e.newRef(s, "escaped:"+pv.Cell.Name), i.Val.Type())
+		}
+		if err := e.store(s, p, sv); err != nil {
 			e.unsupported("%v at %s", err, e.P.Pos(i.Pos()))
 		}
 	case *ssa.UnOp:
